@@ -259,6 +259,8 @@ pub struct FactorizedExpandChain {
     source: Option<Box<dyn Operator>>,
     /// Accumulated factorized result.
     current_result: Option<FactorizedChunk>,
+    /// Number of expansion steps applied so far.
+    steps_done: usize,
     /// Transaction context.
     tx_id: Option<TxId>,
     viewing_epoch: Option<EpochId>,
@@ -271,6 +273,7 @@ impl FactorizedExpandChain {
             store,
             source: Some(source),
             current_result: None,
+            steps_done: 0,
             tx_id: None,
             viewing_epoch: None,
         }
@@ -324,6 +327,17 @@ impl FactorizedExpandChain {
                 self.expand_deepest_level(&mut factorized, source_column, direction, edge_type)?;
                 self.current_result = Some(factorized);
             }
+        }
+
+        // Every step adds one level. A step that found no edge at all adds none: no path
+        // survives it, so the chain has no rows (not the rows of the shorter prefix).
+        self.steps_done += 1;
+        if self
+            .current_result
+            .as_ref()
+            .is_some_and(|chunk| chunk.level_count() <= self.steps_done)
+        {
+            self.current_result = None;
         }
 
         Ok(self)
